@@ -157,6 +157,9 @@ def group(values, min_len: Optional[Integer] = None, max_len: Optional[Integer] 
       IE [0,1,0,1] returns [[0,2], [1,3]]
     """
     original = np.asanyarray(values)
+    if len(original) == 0:
+        # nothing to group: not one group without members
+        return []
 
     # save the sorted order and then apply it
     order = original.argsort()
